@@ -227,7 +227,7 @@ class StochasticScenario(Scenario):
     prop = 'C18'
     uses_fresh = True
     quick_runs = 1200
-    thorough_runs = 120000
+    thorough_runs = 100000
     audit_every = 8
     rule = ('each run = 2-4 callers issuing seeded model calls (shot noise poisson/gaussian, read noise, dark current with and without '
             'fixed-pattern noise, rule-07 dark current, power-spectrum surface error on square and non-square masks; int and array seeds; '
@@ -378,7 +378,7 @@ class StochasticScenario(Scenario):
         K = rng.randint(2, 4)
         world['K'] = K
         events = self.setup(rng, world, big)
-        progs = [self.calls(rng, c, world, rng.randint(3, 9 if not big else 5)) for c in range(K)]
+        progs = [self.calls(rng, c, world, rng.randint(3, (9 if not big else 5) * self.depth)) for c in range(K)]
         return {'scenario': self.name, 'world': world, 'events': events + self.interleave(rng, progs)}
 
     @staticmethod
